@@ -86,7 +86,7 @@ class NTr:
             if key in self.oracles:
                 return self.param(self.oracles[key])
         if isinstance(e, ast.Subscript):
-            key = (dotted(e.value), dotted(e.slice))
+            key = (dotted(e.value), dotted(e.slice) or ast.unparse(e.slice))
             if key in self.subscripts:
                 return self.param(self.subscripts[key])
         raise Untranslatable('numeric expression %s' % ast.dump(e)[:90])
@@ -425,6 +425,82 @@ def generate_adapt():
     return '\n'.join(lines), failed
 
 
+# ---------------------------------------------------------------------------
+# the dynamical annealer (ptchain.py): decay, the step of each log temperature gap, the rebuilt beta, the clip of ratios above 1
+PT = 'epsie/chain/ptchain.py'
+
+
+def is_range(call, *want):
+    return (isinstance(call, ast.Call) and dotted(call.func) == 'range' and not call.keywords
+            and [ast.unparse(a) for a in call.args] == list(want))
+
+
+def t_ann_decay():
+    f = find_func(PT, 'DynamicalAnnealer', '_decay')
+    b = strip_doc(f.body)
+    if not (len(b) == 1 and isinstance(b[0], ast.Return)):
+        raise Untranslatable('_decay is not a single return')
+    tr = NTr(any_attr=True)
+    for p_ in ('t', 'a_nu', 'a_tau'):
+        tr.param(p_)
+    e = tr.num(b[0].value, {'iteration': ('T', 't')})
+    return 'Definition src_ann_decay {T : Type} `{Num T} %s : T := %s.' % (tr.signature(), e)
+
+
+def t_ann_call():
+    f = find_func(PT, 'DynamicalAnnealer', '__call__')
+    out = []
+    # the clip `ars[ars > c] = v`
+    clips = [n for n in f.body if isinstance(n, ast.Assign) and isinstance(n.targets[0], ast.Subscript) and dotted(n.targets[0].value) == 'ars'
+             and isinstance(n.targets[0].slice, ast.Compare)]
+    if len(clips) != 1 or dotted(clips[0].targets[0].slice.left) != 'ars' or len(clips[0].targets[0].slice.ops) != 1:
+        raise Untranslatable('__call__: expected one masked assignment `ars[ars > c] = v`')
+    tr = NTr(any_attr=True)
+    tr.param('a')
+    cond = tr.boo(clips[0].targets[0].slice, {'ars': ('T', 'a')})
+    out.append('Definition src_ann_clip {T : Type} `{Num T} %s : T := if %s then %s else a.' % (tr.signature(), cond, tr.num(clips[0].value, {})))
+    # S[i] += decay * (ars[i] - ars[i+1]) for i in range(ntemps - 2)
+    augs = [n for n in f.body if isinstance(n, ast.AugAssign) and dotted(n.target) == 'self._S' and isinstance(n.op, ast.Add)]
+    if len(augs) != 1:
+        raise Untranslatable('__call__: expected one `self._S += ...`')
+    v = augs[0].value
+    if not (isinstance(v, ast.Call) and dotted(v.func) == 'numpy.array' and len(v.args) == 1 and isinstance(v.args[0], ast.ListComp)
+            and len(v.args[0].generators) == 1 and dotted(v.args[0].generators[0].target) == 'i' and not v.args[0].generators[0].ifs
+            and is_range(v.args[0].generators[0].iter, 'chain.ntemps - 2')):
+        raise Untranslatable('__call__: the step of S is not numpy.array([... for i in range(chain.ntemps - 2)])')
+    tr = NTr(oracles={('self._decay', ('iteration',)): 'd'}, subscripts={('ars', 'i'): 'a0', ('ars', 'i + 1'): 'a1'}, any_attr=True)
+    for p_ in ('d', 'a0', 'a1'):
+        tr.param(p_)
+    out.append('Definition src_ann_S_step {T : Type} `{Num T} %s : T := %s.' % (tr.signature(), tr.num(v.args[0].elt, {})))
+    # betas[i] = 1/(1/betas[i-1] + exp(S[i-1])) for i in range(1, ntemps - 1), assigned to the level at once
+    loops = [n for n in f.body if isinstance(n, ast.For) and dotted(n.target) == 'i' and is_range(n.iter, '1', 'chain.ntemps - 1')]
+    if len(loops) != 1 or len(loops[0].body) != 2:
+        raise Untranslatable('__call__: expected `for i in range(1, chain.ntemps - 1)` with two statements')
+    a, b = loops[0].body
+    if not (isinstance(a, ast.Assign) and ast.unparse(a.targets[0]) == 'chain.betas[i]' and isinstance(b, ast.Assign)
+            and ast.unparse(b.targets[0]) == 'chain.chains[i].beta' and ast.unparse(b.value) == 'chain.betas[i]'):
+        raise Untranslatable('__call__: the loop is not `chain.betas[i] = ...; chain.chains[i].beta = chain.betas[i]`')
+    tr = NTr(subscripts={('chain.betas', 'i - 1'): 'prev', ('self._S', 'i - 1'): 's'}, any_attr=True)
+    for p_ in ('prev', 's'):
+        tr.param(p_)
+    out.append('Definition src_ann_beta {T : Type} `{Num T} %s : T := %s.' % (tr.signature(), tr.num(a.value, {})))
+    return '\n\n'.join(out)
+
+
+def generate_ladder():
+    lines = ['(* GENERATED by tools/py2coq_num.py from the current /repo sources - do not edit. *)',
+             'From Coq Require Import ZArith.', 'From Epsie Require Import Num.', '']
+    failed = []
+    for name, thunk in (('src_ann_decay', t_ann_decay), ('src_ann_call', t_ann_call)):
+        try:
+            lines.append(thunk())
+        except (Untranslatable, SyntaxError, OSError) as e:
+            lines.append('(* %s: NOT TRANSLATED: %s *)' % (name, str(e).replace('*)', '* )')))
+            failed.append((name, str(e)))
+        lines.append('')
+    return '\n'.join(lines), failed
+
+
 def generate():
     lines = ['(* GENERATED by tools/py2coq_num.py from the current /repo sources - do not edit. *)',
              'From Coq Require Import ZArith.', 'From Epsie Require Import Num SrcSupport.', '']
@@ -457,10 +533,15 @@ def main():
     out2 = sys.argv[2] if len(sys.argv) > 2 else None
     text, failed = generate()
     emit(out, text)
+    out3 = sys.argv[3] if len(sys.argv) > 3 else None
     if out2 is not None or out is None:
         text2, failed2 = generate_adapt()
         emit(out2, text2)
         failed += failed2
+    if out3 is not None or out is None:
+        text3, failed3 = generate_ladder()
+        emit(out3, text3)
+        failed += failed3
     for name, err in failed:
         print('py2coq_num: %s not translated: %s' % (name, err), file=sys.stderr)
     return 0
